@@ -160,6 +160,10 @@ class Column(ComponentSchema[PolarsCheckObjects]):
                 lazy=lazy,
                 inplace=inplace,
             )
+
+        if is_dataframe:
+            output = output.collect()
+
         return output
 
     @property
